@@ -277,10 +277,12 @@ func (h *harness) matrixCases(n int) error {
 			a, sa := h.m33()
 			h.addMat("inverse33/"+sa, fmt.Sprintf("(OInv33 %s)", fl(a[:])), m33s(a.Inverse()), true)
 			h.addMat("determinant33/"+sa, fmt.Sprintf("(ODet33 %s)", fl(a[:])), []float64{a.Determinant()}, true)
+			h.inverseOracleSmall("inverse33", a[:], m33s(a.Mul(a.Inverse())), m33s(a.Inverse().Mul(a)), m33s(sdf.Identity2d()), a.Determinant(), m33s(a.Inverse()), sa)
 		case 14:
 			a, sa := h.m22()
 			h.addMat("inverse22/"+sa, fmt.Sprintf("(OInv22 %s)", fl(a[:])), m22s(a.Inverse()), true)
 			h.addMat("determinant22/"+sa, fmt.Sprintf("(ODet22 %s)", fl(a[:])), []float64{a.Determinant()}, true)
+			h.inverseOracleSmall("inverse22", a[:], m22s(a.Mul(a.Inverse())), m22s(a.Inverse().Mul(a)), m22s(sdf.Identity()), a.Determinant(), m22s(a.Inverse()), sa)
 		case 15:
 			a, sa := h.m44()
 			p := h.vec3(8)
@@ -310,24 +312,49 @@ func m22s(m sdf.M22) []float64 { return append([]float64{}, m[:]...) }
 
 // direct oracle: a * inverse(a) is the identity and inverse(a) undoes a on positions (well-conditioned matrices)
 func (h *harness) inverseOracle44(a sdf.M44, flavour string) {
-	if flavour == "near-singular" || flavour == "general" || flavour == "dyadic" {
-		return // conditioning unknown: covered by the correspondence only
+	if flavour == "near-singular" || math.Abs(a.Determinant()) < 0.1 {
+		return // badly conditioned: covered by the correspondence only
 	}
 	inv := a.Inverse()
 	prod := a.Mul(inv)
 	id := sdf.Identity3d()
 	key := "inverse44:" + hx(a[:]...)
 	h.r.Case("oracle/inverse44/"+flavour, key, true)
+	big := 1.0
+	for i := range inv {
+		big = math.Max(big, math.Abs(inv[i])*16*math.Max(1, math.Abs(a[i])))
+	}
 	for i := range prod {
-		if !closeTo(prod[i], id[i], 1e3) {
+		if !closeTo(prod[i], id[i], 1e3, big) {
 			h.r.Violate(key, fmt.Sprintf("M44.Mul(a, a.Inverse())[%d] = %g, identity has %g", i, prod[i], id[i]), map[string]interface{}{"a": a})
 			return
 		}
 	}
+	if a[12] != 0 || a[13] != 0 || a[14] != 0 || a[15] != 1 {
+		return // MulPosition ignores the last row: the round trip is claimed for affine matrices
+	}
 	p := h.vec3(5)
 	q := inv.MulPosition(a.MulPosition(p))
-	if !closeTo(q.X, p.X, 1e3) || !closeTo(q.Y, p.Y, 1e3) || !closeTo(q.Z, p.Z, 1e3) {
+	if !closeTo(q.X, p.X, 1e3, big) || !closeTo(q.Y, p.Y, 1e3, big) || !closeTo(q.Z, p.Z, 1e3, big) {
 		h.r.Violate(key, fmt.Sprintf("Inverse(a).MulPosition(a.MulPosition(%v)) = %v", p, q), map[string]interface{}{"a": a, "p": p})
+	}
+}
+
+func (h *harness) inverseOracleSmall(name string, a, prod, prod2, id []float64, det float64, inv []float64, flavour string) {
+	if math.Abs(det) < 0.1 {
+		return
+	}
+	key := name + ":" + hx(a...)
+	h.r.Case("oracle/"+name+"/"+flavour, key, true)
+	big := 1.0
+	for i := range inv {
+		big = math.Max(big, math.Abs(inv[i])*16*math.Max(1, math.Abs(a[i])))
+	}
+	for i := range prod {
+		if !closeTo(prod[i], id[i], big) || !closeTo(prod2[i], id[i], big) {
+			h.r.Violate(key, fmt.Sprintf("%s: (a * a.Inverse())[%d] = %g, (a.Inverse() * a)[%d] = %g, identity has %g", name, i, prod[i], i, prod2[i], id[i]), map[string]interface{}{"a": a})
+			return
+		}
 	}
 }
 
@@ -530,13 +557,13 @@ func (h *harness) cacheHistory(s sdf.SDF2, desc string, qs []v2.Vec, stratum str
 		if math.Float64bits(direct) != math.Float64bits(got) && !(math.IsNaN(direct) && math.IsNaN(got)) {
 			h.r.Violate(fmt.Sprintf("cache:%s@%s#%d", desc, hx(p.X, p.Y), i),
 				fmt.Sprintf("Cache2D(s).Evaluate(%v) = %g as query %d of the history, s.Evaluate = %g", p, got, i, direct),
-				map[string]interface{}{"shape": desc, "history": qs[:i+1]})
+				map[string]interface{}{"shape": desc, "history": hxPoints(qs[:i+1])})
 		}
 	}
 	reads, hts, entries := cs.VerifCacheStats()
 	if int(reads) != len(qs) || int(hts) != hits || entries != len(seen) {
 		h.r.Violate(key, fmt.Sprintf("counters after %d queries on %d distinct points: reads %d hits %d entries %d (expected %d %d %d)",
-			len(qs), len(seen), reads, hts, entries, len(qs), hits, len(seen)), map[string]interface{}{"shape": desc, "history": qs})
+			len(qs), len(seen), reads, hts, entries, len(qs), hits, len(seen)), map[string]interface{}{"shape": desc, "history": hxPoints(qs)})
 	}
 	if bb := c.BoundingBox(); bb != s.BoundingBox() {
 		h.r.Violate(key, "Cache2D changes the bounding box", nil)
@@ -546,6 +573,15 @@ func (h *harness) cacheHistory(s sdf.SDF2, desc string, qs []v2.Vec, stratum str
 	if id%17 == 0 {
 		h.r.Sample(map[string]interface{}{"id": id, "cache_of": desc, "queries": len(qs), "repeats": hits})
 	}
+}
+
+// exact, JSON-safe rendering of a query history (NaN and -0 included)
+func hxPoints(qs []v2.Vec) []string {
+	out := make([]string, len(qs))
+	for i, p := range qs {
+		out[i] = hx(p.X, p.Y)
+	}
+	return out
 }
 
 func (h *harness) cacheCases(n int) error {
